@@ -359,6 +359,10 @@ func (d *Decoder) PeekFileId() (*mesgdef.FileId, error) {
 		return nil, d.err
 	}
 	for d.fileId == nil {
+		if d.cur >= d.fileHeader.DataSize { // do not read beyond the messages of this sequence.
+			d.err = fmt.Errorf("file_id message is not found: %w", ErrNotFITFile)
+			return nil, d.err
+		}
 		if d.err = d.decodeMessage(); d.err != nil {
 			return nil, d.err
 		}
